@@ -221,8 +221,12 @@ fn post_checks(w: &World, dir_ids: &[Uuid], scen: &str, problems: &mut Vec<(Stri
 				// once the private context is gone the transaction cannot be built again: the stored copy
 				// must then be the finished transaction (it is written before the context is deleted)
 				if t.tx_type == TxLogEntryType::TxSent && !t.confirmed && a.get_context(&id).is_err() {
-					if let Some(Ok(Some(slate))) = q!("get_stored_tx", a.with(|x| owner::get_stored_tx(&*x, None, Some(&id)))) {
-						let ok = slate.tx.as_ref().map(|tx| tx.validate(grin_core::core::Weighting::AsTransaction).is_ok()).unwrap_or(false);
+					if let Some(got) = q!("get_stored_tx", a.with(|x| owner::get_stored_tx(&*x, None, Some(&id)))) {
+						let ok = match got {
+							Ok(Some(slate)) => slate.tx.as_ref().map(|tx| tx.validate(grin_core::core::Weighting::AsTransaction).is_ok()).unwrap_or(false),
+							// unreadable or missing: just as lost
+							_ => false,
+						};
 						if !ok {
 							problems.push((
 								format!("stored-tx-not-final/{}", scen),
